@@ -125,8 +125,8 @@ def log_exceptions(prop, case, res, exp=None):
         i = e.get('i')
         if exp is not None and isinstance(i, int) and 0 <= i < len(exp) and e.get('phase', 'main') == 'main' and exp[i].get('throws') and e.get('op') in ('qr', 'mm', 'dblock'):
             # a record the library must refuse (timed record at tick rate 0)
-            if e.get('exc') != 'std::runtime_error':
-                vs.append(Violation(prop, '%s:refusal-missing:%s' % (prop, e.get('op')), 'API call %s with a timed record at ticks_per_second = 0 did not throw std::runtime_error (%s)' % (e.get('op'), e.get('exc')), {'case': case, 'op_index': i}))
+            if 'exc' not in e:
+                vs.append(Violation(prop, '%s:refusal-missing:%s' % (prop, e.get('op')), 'API call %s with a timed record at ticks_per_second = 0 did not throw' % e.get('op'), {'case': case, 'op_index': i}))
             continue
         if e.get('op') == 'rotate_bad':
             if e.get('exc') != 'CborOutputException':
